@@ -497,9 +497,46 @@ func valueAt(t *rapid.T, ty reflect.Type, o ValOpt, depth int) reflect.Value {
 		m := reflect.MakeMap(ty)
 		if k > 1 && depth > 0 {
 			n := rapid.IntRange(1, 4).Draw(t, "mlen")
+			// now and then a map big enough for every stage of the key sorter (insertion sort below 12,
+			// radix quicksort, heapsort fallback when many keys share a long prefix)
+			switch rapid.IntRange(0, 11).Draw(t, "mbig") {
+			case 0:
+				n = rapid.IntRange(5, 16).Draw(t, "mlen2")
+			case 1:
+				n = rapid.IntRange(17, 70).Draw(t, "mlen3")
+			}
+			ed := depth - 1
+			if n > 8 && ed > 0 {
+				ed = 0
+			}
+			kk := ty.Key().Kind()
+			clustered := n > 4 && rapid.Bool().Draw(t, "mclustered")
+			var prefix string
+			var base int64
+			if clustered {
+				prefix = string(asciiRun(t, []int{0, 1, 4, 8, 10, 12, 16, 24, 40}[rapid.IntRange(0, 8).Draw(t, "mprefix")]))
+				base = drawInt(t, 64)
+			}
 			for i := 0; i < n; i++ {
-				kv := valueAt(t, ty.Key(), ValOpt{RoundTrip: o.RoundTrip}, depth-1)
-				m.SetMapIndex(kv, valueAt(t, ty.Elem(), o, depth-1))
+				var kv reflect.Value
+				switch {
+				case clustered && kk == reflect.String && ty.Key().NumMethod() == 0:
+					kv = reflect.New(ty.Key()).Elem()
+					suffix := []string{"", "a", "b", "aa", "ab", "a\x00", "\x7f", "\xc3\xa9", "z"}[i%9]
+					if i >= 9 {
+						suffix = strconv.Itoa(i*7919%1000) + suffix
+					}
+					kv.SetString(prefix + suffix)
+				case clustered && kk >= reflect.Int && kk <= reflect.Int64 && ty.Key().NumMethod() == 0:
+					kv = reflect.New(ty.Key()).Elem()
+					kv.SetInt(reflect.ValueOf(base + int64(i*37%101)).Convert(ty.Key()).Int())
+				case clustered && kk >= reflect.Uint && kk <= reflect.Uintptr && ty.Key().NumMethod() == 0:
+					kv = reflect.New(ty.Key()).Elem()
+					kv.SetUint(reflect.ValueOf(uint64(base) + uint64(i*37%101)).Convert(ty.Key()).Uint())
+				default:
+					kv = valueAt(t, ty.Key(), ValOpt{RoundTrip: o.RoundTrip}, depth-1)
+				}
+				m.SetMapIndex(kv, valueAt(t, ty.Elem(), o, ed))
 			}
 		}
 		v.Set(m)
